@@ -351,8 +351,8 @@ def find_check_cache(context):
     # If the find cache is newer than the build file (always the first output),
     # an earlier regeneration was interrupted after it saved the cache but
     # before it wrote the build file. The cache then already describes the
-    # current find results while the build file doesn't, so comparing them below
-    # would wrongly conclude that nothing changed.
+    # current find results while the build file doesn't, so comparing them
+    # below would wrongly conclude that nothing changed.
     if ( _path.getmtime_ns(Path(FindCacheFile.cachefile),
                            context.env.base_dirs, strict=False) >
          _path.getmtime_ns(regen_files.outputs[0], context.env.base_dirs,
